@@ -62,9 +62,12 @@ def record(workdir):
     """run every test program once; returns (events as JSON lines with unique ids, meta)"""
     root = build_tests(workdir)
     cache = os.path.join(root, "events.ndjson")
+    cache_m = os.path.join(root, "events_mbs.ndjson")
     info = os.path.join(root, "run.json")
     if os.path.exists(cache) and os.path.exists(info):
-        return open(cache).read().splitlines(), json.load(open(info))
+        meta = json.load(open(info))
+        meta["mbs_events"] = open(cache_m).read().splitlines() if os.path.exists(cache_m) else []
+        return open(cache).read().splitlines(), meta
     exes = sorted(glob.glob(os.path.join(root, "t_*")))
     rundir = os.path.join(workdir, "testrun")
     os.makedirs(rundir, exist_ok=True)
@@ -74,20 +77,27 @@ def record(workdir):
         log = os.path.join(rundir, name + ".ndjson")
         d = os.path.join(rundir, name + ".d")
         os.makedirs(d, exist_ok=True)
-        env = dict(os.environ, VERIF_WRAPLOG=log)
+        mlog = os.path.join(rundir, name + ".mbs.ndjson")
+        env = dict(os.environ, VERIF_WRAPLOG=log, VERIF_WRAPLOG_MBS=mlog)
         try:
             p = subprocess.run([exe], cwd=d, env=env, stdin=subprocess.DEVNULL, stdout=subprocess.DEVNULL, stderr=subprocess.DEVNULL, timeout=120)
             rc = p.returncode
         except subprocess.TimeoutExpired:
             rc = -999
         lines = open(log).read().splitlines() if os.path.exists(log) else []
-        return name, rc, lines
+        mlines = open(mlog).read().splitlines() if os.path.exists(mlog) else []
+        return name, rc, lines, mlines
     with ThreadPoolExecutor(max_workers=16) as ex:
         outs = list(ex.map(one, exes))
     events, origin, skipped, rcs = [], {}, 0, {}
     eid = 0
-    for name, rc, lines in outs:
+    mbs_events, mid = [], 0
+    for name, rc, lines, mlines in outs:
         rcs[name] = rc
+        for ln in mlines:
+            if ln.startswith('{"id"') and ln.endswith("}"):
+                mid += 1
+                mbs_events.append('{"slack":1,"id":%d,"prog":"%s",' % (mid, name) + ln[ln.index(",") + 1:])
         for ln in lines:
             if ln.startswith('{"skip"'):
                 skipped += json.loads(ln)["skip"]
@@ -100,7 +110,9 @@ def record(workdir):
     meta = dict(programs=len(exes), events=len(events), skipped_calls=skipped, origin={str(k): v for k, v in origin.items()},
                 nonzero_exit=sorted(n for n, r in rcs.items() if r != 0), build=json.load(open(os.path.join(root, "build.json"))))
     open(cache, "w").write("\n".join(events) + "\n")
+    open(cache_m, "w").write("\n".join(mbs_events) + ("\n" if mbs_events else ""))
     json.dump(meta, open(info, "w"))
+    meta["mbs_events"] = mbs_events
     return events, meta
 
 
@@ -126,6 +138,28 @@ def run_props(prop, tier, seed, workdir, res):
     res.coverage["traces_validated_against_impl"] = res.coverage.get("traces_validated_against_impl", 0) + n
     res.coverage["rule"] += ("; plus the calls the repository's own %d test programs make to the copy / fill / transform entry points, recorded through ld --wrap "
                              "(harness/hwrap.c) and judged by TraceArena.tla (%d events; %d calls with sizes beyond the recording window skipped)" % (meta["programs"], n, meta["skipped_calls"]))
+    return res
+
+
+def run_mbs(res, workdir):
+    """C15: the conversion calls of the repository's tests, judged by TraceMbs.tla"""
+    events, meta = record(workdir)
+    ev = meta["mbs_events"]
+    if not ev:
+        return res
+    n, bad, st = tlc.validate("TraceMbs", os.path.join(tlc.SPEC, "TraceMbs.cfg"), ev, workdir, jvms=4)
+    byid = {json.loads(e)["id"]: json.loads(e) for e in ev}
+    for bd in bad:
+        e = byid[bd["i"]]
+        if bd["why"].startswith("ORACLE"):
+            raise tlc.TLCError("test-suite corpus: Mbs.tla does not describe libc for %s" % json.dumps(e)[:400])
+        res.violations.append(dict(desc="conversion call fn=%d of the repository's %s (%s dmax=%d len=%d src=%s): %s" % (e["fn"], e["prog"], e["loc"], e["dmax"], e["len"], e["src"][:12], bd["why"]),
+                                   cluster="testtrace-mbs|%d|%s" % (e["fn"], bd["why"]), slug="tt-mbs-%d" % bd["i"], dev=bd.get("dev", ""),
+                                   replay=dict(kind="testtrace-mbs", event=e, why=bd["why"])))
+    res.coverage["testsuite_conversion_calls"] = n
+    res.coverage["evaluations"] = res.coverage.get("evaluations", 0) + n
+    res.coverage["traces_validated_against_impl"] = res.coverage.get("traces_validated_against_impl", 0) + n
+    res.coverage["rule"] += "; plus %d conversion calls recorded from the repository's own test programs (harness/hwrap.c), judged by TraceMbs.tla" % n
     return res
 
 
